@@ -23,6 +23,12 @@ def cases(tier, seed):
                         "name": f"_ema_grouped/float64/N=4,G=3/mask=True/code sequences starting with {first}"})
             out.append({"variant": "timed", "dtype": "float64", "N": 3, "G": 3, "mask": True, "halflife": 7, "first": first, "gaps": (0, 1, 3),
                         "name": f"_ema_grouped_timed/float64/N=3,G=3/mask=True/halflife=7/gaps (0,1,3)/code sequences starting with {first}"})
+    # the public entry point ema_grouped(alpha=...): one group (incl. no null key at all), two groups, with and without mask
+    for Gp, nk in ((1, False), (1, True), (2, True)):
+        for mk in (False, True):
+            out.append({"variant": "grouped", "dtype": "float64", "N": 3 if tier == "quick" else 4, "G": Gp, "mask": mk, "first": None, "null_keys": nk, "public": True,
+                        "null_rows_constant": True,
+                        "name": f"ema_grouped(alpha) public entry/float64/N={3 if tier == 'quick' else 4},G={Gp}/null keys={nk}/mask={mk}/all code sequences"})
     for dt in ("float64", "int64"):
         out.append({"variant": "ungrouped", "dtype": dt, "N": 4, "name": f"grouped(single group) == ema_adjusted/{dt}/N=4"})
     for first in range(-1, 2):
